@@ -1166,8 +1166,8 @@ func (e *reEngine) exec(f *prFunc, n ast.Node, c reCfg) (res []reOut, ret reVal,
 					}
 					as, ok := blk.List[i].(*ast.AssignStmt)
 					if !ok {
-						if _, isExpr := blk.List[i].(*ast.ExprStmt); isExpr {
-							continue // close(ch) and similar calls do not change the field
+						if reOnlyCalls(blk.List[i]) {
+							continue // close(ch) and similar calls (possibly in a nested block) do not change the field
 						}
 						break
 					}
@@ -1294,4 +1294,20 @@ func (e *reEngine) exec(f *prFunc, n ast.Node, c reCfg) (res []reOut, ret reVal,
 		return res, reVal{}, false
 	}
 	return []reOut{{c, reVal{}}}, reVal{}, false
+}
+
+// reOnlyCalls: an expression statement, or a block made of such statements.
+func reOnlyCalls(st ast.Stmt) bool {
+	switch x := st.(type) {
+	case *ast.ExprStmt, *ast.EmptyStmt:
+		return true
+	case *ast.BlockStmt:
+		for _, c := range x.List {
+			if !reOnlyCalls(c) {
+				return false
+			}
+		}
+		return true
+	}
+	return false
 }
